@@ -380,7 +380,7 @@ class PropertyRun:
                                             clause_gen_line=ref['line'],
                                             repo_file=u.file, repo_line=repo_line, rendered=e['rendered'],
                                             unit_raw=u.raw, unit_sha256=u.raw_sha, group=name,
-                                            checker_cmd=res['cmd'], identical_to_frozen=u.identical_to_frozen,
+                                            checker_cmd=res['cmd'], identical_to_frozen=u.identical_to_frozen, new_closures=getattr(u, 'new_closures', 0),
                                             weaving='signature-only' if getattr(u, 'sig_only', False) else 'full'))
             # consistency: verus reported errors but we classified none
             if grp['errors'] and not errs:
@@ -510,9 +510,17 @@ class PropertyRun:
             # code means "the proof does not go through any more", which by itself is undecided, not a violation -- unless a
             # concrete failing input exists in this run (for this obligation or from the bounded stand-in).
             corroborated = rep.get('failing_input') is not None or any(x.get('kind') == 'bounded-probe' for x in real_violations)
-            if v['kind'] == 'assertion' and v.get('identical_to_frozen') is False and not corroborated and not os.environ.get('VT_NO_PROBE'):
-                self.undecided.append('group=%s unit=%s reason=an inserted proof assertion is no longer provable on the changed code and no failing input was found: %s'
-                                      % (v.get('group'), v['unit'], re.sub(r'\s+', ' ', v.get('clause_text') or '')[:160]))
+            changed = v.get('identical_to_frozen') is False
+            why = None
+            if v['kind'] == 'assertion' and changed:
+                why = 'an inserted proof assertion is no longer provable on the changed code'
+            elif v.get('weaving') == 'signature-only':
+                why = 'the restructured body was verified without its proof hints (signature-only weaving) and an obligation is not provable'
+            elif changed and v.get('new_closures'):
+                why = 'the changed code contains a new closure, which carries no specification, and an obligation is not provable'
+            if why and not corroborated and not os.environ.get('VT_NO_PROBE'):
+                self.undecided.append('group=%s unit=%s reason=%s, and no failing input was found (%s): %s'
+                                      % (v.get('group'), v['unit'], why, v['kind'], re.sub(r'\s+', ' ', v.get('clause_text') or '')[:140]))
                 downgraded.append(v)
                 continue
             json.dump(rep, open(path, 'w'), indent=1)
